@@ -1202,8 +1202,14 @@ pub fn run_c09(st: &Shared, tier: Tier) -> RunReport {
         1 => Kind::D3,
         2 => Kind::Mesh,
         _ => {
-            // E5: one tape shared by several logical threads
-            crate::e5::run(st, tier, &mut rep);
+            // E5: one tape shared by several logical threads; one in six of
+            // these is E6: two real threads, one of them frozen at a machine
+            // instruction chosen by the simulator (ptrace)
+            if st.borrow_mut().ch.odds("e6_step_sim", 1, 6) {
+                crate::e6::run(st, tier, &mut rep);
+            } else {
+                crate::e5::run(st, tier, &mut rep);
+            }
             return rep.finish(st);
         }
     };
